@@ -13,6 +13,7 @@ PNC = SERVER + "process_normal_command"
 VEC = r"std::collections::VecDeque::<std::vec::Vec<u8>>::"
 SET = r"std::collections::HashSet::<std::vec::Vec<u8>>::"
 HASH = r"std::collections::HashMap::<std::vec::Vec<u8>, std::vec::Vec<u8>>::"
+HASH_ITER = r"(" + HASH + r"(iter|keys|values|into_iter)|<&std::collections::HashMap<std::vec::Vec<u8>, std::vec::Vec<u8>> as std::iter::IntoIterator>::into_iter)"
 MAP = shared.SHARD_MAP
 SKIP = r"storage::skiplist::SkipList::<std::vec::Vec<u8>, f64>::"
 STREAM = r"storage::stream::Stream::"
@@ -51,7 +52,7 @@ SPEC = {
     "SPOP": ("W", SET + "(remove|take|retain)"), "SRANDMEMBER": ("R", SET_ITER),
     # hashes
     "HSET": ("W", HASH + "insert"), "HMSET": ("W", HASH + "insert"), "HGET": ("R", HASH + "get"),
-    "HMGET": ("R", HASH + "get"), "HGETALL": ("R", HASH + "iter"), "HDEL": ("W", HASH + "remove"),
+    "HMGET": ("R", HASH + "get"), "HGETALL": ("R", HASH_ITER), "HDEL": ("W", HASH + "remove"),
     "HLEN": ("R", HASH + "len"), "HEXISTS": ("R", HASH + "contains_key"), "HKEYS": ("R", HASH + "keys"),
     "HVALS": ("R", HASH + "values"), "HINCRBY": ("W", HASH + "insert"),
     # C04 sorted sets
